@@ -1,21 +1,25 @@
 #!/bin/sh
-# replay_seeded.sh [id-glob]: apply every archived seeded change to /repo, run the quick check named in its meta.json,
-# report whether it raises a VIOLATION, and always restore /repo.  Exit 0 iff every change behaves as recorded.
+# replay_seeded.sh [id-glob]: apply every archived seeded change to a scratch worktree of /repo (never to /repo itself),
+# run the quick check named in its meta.json against that tree (VERIF_REPO), report whether it raises a VIOLATION.
+# Exit 0 iff every change behaves as recorded.  The worktree is removed afterwards.
 cd /verif
 PAT="${1:-*}"
+WT="${REPLAY_WT:-/tmp/verif_replay_wt}"
 BAD=0
-git -C /repo diff --quiet || { echo "/repo not clean"; exit 2; }
+git -C /repo worktree remove --force "$WT" 2>/dev/null
+git -C /repo worktree add --detach "$WT" HEAD -q || exit 2
 for D in seeded/$PAT; do
   ID=$(basename "$D")
   P="/verif/$D/patch.diff"; [ -f "/verif/$D/patch_adapted.diff" ] && P="/verif/$D/patch_adapted.diff"
-  CHK=$(python3 -c "import json,re,sys; m=json.load(open('$D/meta.json')); r=re.findall(r'\./check (C\d\d)', m['detected_by']+' '+m.get('note','')); print(r[-1] if 'MISSED by ./check C10' in m['detected_by'] else (r[0] if r else '$ID'[:3]))")
-  EXPECT=$(python3 -c "import json; m=json.load(open('$D/meta.json')); print('missed' if m['detected_by'].startswith('MISSED') and 'caught by' not in m['detected_by'] else 'caught')")
-  git -C /repo apply "$P" || { echo "$ID patch does not apply"; BAD=1; continue; }
-  OUT=$(./check "$CHK" --tier quick --no-evidence 2>&1); RC=$?
-  git -C /repo checkout -- .
+  CHK=$(python3 -c "import json,re; m=json.load(open('$D/meta.json')); t=m['detected_by']; r=re.findall(r'\./check (C\d\d)', t); print((re.findall(r'caught by \./check (C\d\d)', t) or r or ['$ID'[:3]])[0])")
+  EXPECT=$(python3 -c "import json; m=json.load(open('$D/meta.json')); t=m['detected_by']; print('missed' if t.startswith('MISSED') and 'caught by' not in t else 'caught')")
+  git -C "$WT" apply "$P" || { echo "$ID patch does not apply"; BAD=1; continue; }
+  OUT=$(VERIF_REPO="$WT" ./check "$CHK" --tier quick --no-evidence 2>&1); RC=$?
+  git -C "$WT" checkout -- .
   N=$(echo "$OUT" | grep -c '^VIOLATION')
   if [ "$EXPECT" = caught ] && [ $RC -eq 1 ]; then echo "$ID: caught by $CHK ($N VIOLATION lines)";
   elif [ "$EXPECT" = missed ] && [ $RC -eq 0 ]; then echo "$ID: missed by $CHK as recorded (rc=0)";
   else echo "$ID: UNEXPECTED rc=$RC expected=$EXPECT check=$CHK"; BAD=1; fi
 done
+git -C /repo worktree remove --force "$WT" 2>/dev/null
 exit $BAD
